@@ -76,6 +76,33 @@ func (h *c07h) extraJobs(root *rng, tier string, jobs *[]*c07job) {
 			}
 		}
 	}
+	nE := 300
+	if tier == "thorough" {
+		nE = 4000
+	}
+	for k := 0; k < nE; k++ {
+		e := h.genE(root.fork(), "")
+		add(func(j *c07job) { h.runE(j, e, "") })
+	}
+	for _, region := range []string{"embedded-unwrapped-pointer", "embedded-promoted-stub", "embedded-first-by-value"} {
+		for k := 0; k < nR; k++ {
+			region := region
+			e := h.genE(root.fork(), region)
+			add(func(j *c07job) { h.runE(j, e, region) })
+		}
+	}
+	nS := 80
+	if tier == "thorough" {
+		nS = 1200
+	}
+	for k := 0; k < nS; k++ {
+		s := h.genS(root.fork(), "")
+		add(func(j *c07job) { h.runS(j, s, "") })
+	}
+	for k := 0; k < nR/2+1; k++ {
+		s := h.genS(root.fork(), "after-cancel-before-eval")
+		add(func(j *c07job) { h.runS(j, s, "after-cancel-before-eval") })
+	}
 	nI := 2
 	if tier == "thorough" {
 		nI = 25
@@ -1146,6 +1173,32 @@ func main() {
 	}
 }
 `, b, a%8, a%8+5))
+		// corpus (repaired by abe7a69): a deferred host call that calls back a closure held in a variable
+		add("defer-callback", "", fmt.Sprintf(`package main
+
+import (
+	"fmt"
+	"sort"
+	"strings"
+)
+
+func main() {
+	xs := []int{%s}
+	func() {
+		var less func(i, j int) bool = func(i, j int) bool { return xs[i] < xs[j] }
+		defer sort.Slice(xs, less)
+	}()
+	fmt.Println(xs)
+	w := []string{%s}
+	func() {
+		fs := []func(rune) rune{func(c rune) rune { return c + 1 }}
+		defer func() { w[0] = strings.Map(fs[0], w[0]) }()
+		up := strings.ToUpper
+		defer fmt.Println(strings.Map(fs[0], w[1]), up(w[2]))
+	}()
+	fmt.Println(w)
+}
+`, ints(6), words(3)))
 		add("sort", "", fmt.Sprintf(`package main
 
 import (
